@@ -8,7 +8,8 @@ _TB = ("Trusted: Lean 4.33 kernel; axioms propext, Classical.choice, Quot.sound 
        "native_decide, bv_decide; `decide +kernel` for finite tables); tools/gen_lean.py (literal extraction, fails closed on "
        "src/constants/mod.rs); the differential correspondence, whose strength is that of the generators printed in the evidence; "
        "tools/rs2lean.py (Rust-subset translator; its conventions are listed in DESIGN §13); Rust integer semantics modelled on unbounded Int (/,% as tdiv/tmod, checked_* as range tests); slices as List; "
-       "core::fmt padding and str::parse on digit strings modelled; 64-bit usize; rustc/cargo and catch_unwind.")
+       "core::fmt padding and str::parse on digit strings modelled; the injected read_file_fn is a function of the path during one call and its calls are logged "
+       "(C20); `cfg(unix)` statements as `rustc --print cfg` has them; 64-bit usize; rustc/cargo and catch_unwind.")
 
 
 _S = ("Second tie (DESIGN §13): the functions this property is about are translated from /repo/src to Lean on every run "
@@ -125,8 +126,11 @@ CLAIMS = {
     "C20": _c("Proved on the model with the injectable reader as a parameter: empty → refused, nothing opened; `localtime` → exactly /etc/localtime; "
               "':' → file lookup, never the description fallback; absolute path as is; relative name under each directory in order up to the first "
               "readable; decoding error final; description (whitespace-stripped, no extensions) only if nothing was readable; no other path is ever "
-              "opened. " + _K + "resolve family with a recording virtual file system.",
-              "Lean 4 proof + differential correspondence with recording reader"),
+              "opened. " + _S + "Here the translation has effects: the log of paths handed to the injected reader is threaded through every exit of "
+              "read_tz_file / parse_posix_tz / parse_local, and the translated functions are proved to return exactly the model's result AND its "
+              "request sequence for every settings value and every well-formed-UTF-8 TZ value (translated_source_is_the_model, only_candidates_src, "
+              "value_shapes_src). " + _K + "resolve family with a recording virtual file system.",
+              "Lean 4 proof + source translated to Lean (effects as a threaded request log) and proved equal to the model + differential correspondence with recording reader"),
 }
 
 NOT_APPLICABLE = {}
